@@ -22,7 +22,12 @@ type dagCfg struct {
 	Layers [][]string `json:"layers"`
 	Fail   []string   `json:"fail"`
 	Used   bool       `json:"used"` // the engine served a sort-model call before the DAG call
+	// Real: the failing rules fail by a real fault (an ill-typed store into an injected field, which
+	// panics inside reflect) instead of the panicking observer
+	Real bool `json:"real,omitempty"`
 }
+
+type dagInj struct{ N int64 }
 
 var dagIDs = map[string]int64{"a": 1, "b": 2, "c": 3, "d": 4}
 
@@ -36,8 +41,8 @@ type dagState struct {
 
 var dagCompiled = map[string]*builder.RuleBuilder{}
 
-func dagRules(fail []string) *builder.RuleBuilder {
-	key := strings.Join(fail, ",")
+func dagRules(fail []string, real bool) *builder.RuleBuilder {
+	key := strings.Join(fail, ",") + fmt.Sprint(real)
 	if rb, ok := dagCompiled[key]; ok {
 		return rb
 	}
@@ -49,7 +54,11 @@ func dagRules(fail []string) *builder.RuleBuilder {
 				f = true
 			}
 		}
-		rs = append(rs, gx.RuleSpec{Name: n, ID: dagIDs[n], Salience: int64(10 - i), Fail: f, Ret: true})
+		sp := gx.RuleSpec{Name: n, ID: dagIDs[n], Salience: int64(10 - i), Fail: f, Ret: true}
+		if f && real {
+			sp.Fail, sp.After = false, `inj.N = "x"`
+		}
+		rs = append(rs, sp)
 	}
 	rb := gx.MustCompile(gx.RulesText(rs))
 	dagCompiled[key] = rb
@@ -57,7 +66,7 @@ func dagRules(fail []string) *builder.RuleBuilder {
 }
 
 func dagScenario(cfg dagCfg) *hx.Scenario {
-	src := dagRules(cfg.Fail)
+	src := dagRules(cfg.Fail, cfg.Real)
 	failing := map[int64]bool{}
 	for _, n := range cfg.Fail {
 		failing[dagIDs[n]] = true
@@ -68,12 +77,12 @@ func dagScenario(cfg dagCfg) *hx.Scenario {
 		New:  func() interface{} { return &dagState{log: &gx.Log{}} },
 		Body: func(s interface{}) {
 			st := s.(*dagState)
-			rb := gx.Fresh(src, st.log, nil)
+			rb := gx.Fresh(src, st.log, map[string]interface{}{"inj": &dagInj{}})
 			g := engine.NewGengine()
 			if cfg.Used {
 				// a previous call in another model on the same engine (its events are dropped)
 				pre := &gx.Log{}
-				rb0 := gx.Fresh(src, pre, nil)
+				rb0 := gx.Fresh(src, pre, map[string]interface{}{"inj": &dagInj{}})
 				_ = g.ExecuteSelectedRules(rb0, []string{"d"})
 			}
 			st.err, st.pan = gx.CallGuarded(func() error { return g.ExecuteDAGModel(rb, cfg.Layers) })
@@ -211,6 +220,9 @@ func dagConfigs(thorough bool) []dagCfg {
 		for _, f := range fails {
 			for _, used := range []bool{false, true} {
 				out = append(out, dagCfg{Layers: l, Fail: f, Used: used})
+				if len(f) > 0 {
+					out = append(out, dagCfg{Layers: l, Fail: f, Used: used, Real: true})
+				}
 			}
 		}
 	}
@@ -224,7 +236,7 @@ func init() {
 		BudgetQuick: 120 * time.Second,
 		BudgetThor:  20 * time.Minute,
 		Kind:        "schedules",
-		Rule: "for every DAG layering (widths 1-3, empty layers, unknown names, duplicate names) x failing subset x fresh/previously-used engine: " +
+		Rule: "for every DAG layering (widths 1-3, empty layers, unknown names, duplicate names) x failing subset (failing by the panicking observer / by an ill-typed store into an injected field) x fresh/previously-used engine: " +
 			"every schedule of ExecuteDAGModel's goroutines up to the preemption bound (quick 2, thorough unbounded with trace pruning); " +
 			"distinct = distinct happens-before trace fingerprints; outcomes = distinct global event logs",
 		Assume: []string{"injected observer functions terminate", "sequentially consistent memory (races are C19's subject)"},
